@@ -23,6 +23,7 @@ from optree import _C
 
 from optsim import gen
 from optsim import universe as U
+from optsim.same import same
 from optsim.scenario import GLOBAL, Registry, clone, py_children, walk
 from optsim.tape import Tape, derive_seed
 
@@ -588,7 +589,7 @@ def run_reentry(job, io):
 
 
 # -------------------------------------------------------------------------------------------------- depth
-DEPTH_KINDS = ('list', 'tuple', 'dict', 'odict', 'ddict', 'deque', 'nt', 'custom', 'custom_gen', 'mixed', 'selfref', 'composed')
+DEPTH_KINDS = ('list', 'tuple', 'dict', 'odict', 'ddict', 'deque', 'nt', 'custom', 'custom_gen', 'mixed', 'selfref', 'composed', 'wide')
 NTD = collections.namedtuple('NTD', ['a'])
 
 
@@ -637,7 +638,52 @@ def run_depth(job, io):
     def viol(cls, site, msg):
         violations.append({'cls': cls, 'site': site, 'msg': msg})
 
-    if kind == 'composed':
+    if kind == 'wide':
+        # WIDTH around and far above the depth limit: a node with L-1 ... L+2 and 20 000 children, of every kind, also two levels
+        # of such nodes.  Depth is 1-2, so everything must work in every operation (a size threshold that belongs to depth
+        # must not leak into width), and the results must be consistent.
+        def mk(k, n):
+            lv = [U.Leaf(i) for i in range(n)]
+            if k == 'list':
+                return lv
+            if k == 'tuple':
+                return tuple(lv)
+            if k == 'dict':
+                return {i: x for i, x in enumerate(lv)}
+            if k == 'odict':
+                return OrderedDict((('k%d' % i), x) for i, x in enumerate(lv))
+            if k == 'ddict':
+                return defaultdict(int, {i: x for i, x in enumerate(lv)})
+            if k == 'deque':
+                return deque(lv)
+            return U.CA(lv, 0)
+        for k in ('list', 'tuple', 'dict', 'odict', 'ddict', 'deque', 'custom'):
+            for n in (L - 1, L, L + 1, L + 2, 20000):
+                for two_level in (False, True):
+                    t = mk(k, n)
+                    if two_level:
+                        t = [t, mk(k, L + 1)]
+                    site = 'depth:wide:%s:%d%s' % (k, n, ':x2' if two_level else '')
+                    io.progress({'site': site})
+                    try:
+                        leaves, spec = optree.tree_flatten(t, **kw)
+                        want = n + (L + 1 if two_level else 0)
+                        ok = (len(leaves) == want == spec.num_leaves and len(spec.paths()) == want and len(spec.accessors()) == want and
+                              len(list(optree.tree_iter(t, **kw))) == want and spec == optree.tree_structure(t, **kw) and
+                              pickle.loads(pickle.dumps(spec)) == spec and same(spec.unflatten(leaves), t) is None and
+                              len(optree.tree_leaves(optree.tree_map(lambda a, b: a, t, t, **kw), **kw)) == want and
+                              spec.is_prefix(spec) and spec.broadcast_to_common_suffix(spec) == spec and
+                              len(repr(spec)) > n and isinstance(hash(spec), int) and
+                              sum(c.num_leaves for c in spec.children()) == want and not optree.prefix_errors(t, t, **kw))
+                        if not ok:
+                            viol('inconsistent', site, 'operations on a %s node with %d children (depth %d) are not consistent with each other' % (k, n, 2 if two_level else 1))
+                        oc = 'ok'
+                    except Exception as e:  # noqa: BLE001
+                        viol('wide-refused', site, 'an operation on a %s node with %d children (depth %d) raised %s: %s' % (k, n, 2 if two_level else 1, type(e).__name__, str(e)[:200]))
+                        oc = type(e).__name__
+                    probes['depth:wide'] += 1
+                    keys.add('depth|wide|%s|%d|%s|%s' % (k, n, two_level, oc))
+    elif kind == 'composed':
         # treespecs DEEPER than any tree can be: compose() / transform() stack legal treespecs on top of each other.
         # Every treespec method must then either work or raise (RecursionError) — never overflow the native stack.
         for base_kind in ('list', 'dict', 'custom', 'mixed'):
